@@ -86,17 +86,28 @@ inductive SOp where
   | acq (inst : Str) (rid : Int) (reqs : List (Str × Int)) (nows : List Int)
   | del (inst : Str)
 
+/-- absent or null = empty (Go's `omitempty`) -/
+def optHex (j : Json) (k : String) : Except String Str :=
+  match J.optObj j k with
+  | none => pure []
+  | some v => J.asHex v
+
+def optArr (j : Json) (k : String) : Except String (List Json) :=
+  match J.optObj j k with
+  | none => pure []
+  | some v => do pure (← v.getArr?).toList
+
 def decOp (j : Json) : Except String SOp := do
   match ← J.getStr j "k" with
-  | "sync" => pure (.sync (← (← J.getArr j "schemas").toList.mapM decSchema))
-  | "set" => pure (.set (← J.getHex j "fc") (← J.getHex j "inst") (← J.getInt j "rid") (← J.getInt j "cur"))
-  | "resize" => pure (.resize (← J.getHex j "fc") (← J.getInt j "n") (← J.getInt j "burst"))
+  | "sync" => pure (.sync (← (← optArr j "schemas").mapM decSchema))
+  | "set" => pure (.set (← optHex j "fc") (← optHex j "inst") (← J.getInt j "rid") (← J.getInt j "cur"))
+  | "resize" => pure (.resize (← optHex j "fc") (← J.getInt j "n") (← J.getInt j "burst"))
   | "acq" =>
-    let reqs ← (← J.getArr j "reqs").toList.mapM fun r => do pure ((← J.getHex r "fc"), (← J.getInt r "tokens"))
+    let reqs ← (← optArr j "reqs").mapM fun r => do pure ((← optHex r "fc"), (← J.getInt r "tokens"))
     let nows ← J.getIntList j "nows"
-    if nows.length ≠ 4 then throw "acq needs the clock readings of the four tries"
-    pure (.acq (← J.getHex j "inst") (← J.getInt j "rid") reqs nows)
-  | "del" => pure (.del (← J.getHex j "inst"))
+    if nows.length < KG.Gen.C08.tbTries then throw "acq needs a clock reading for every try"
+    pure (.acq (← optHex j "inst") (← J.getInt j "rid") reqs nows)
+  | "del" => pure (.del (← optHex j "inst"))
   | k => throw s!"bad op {k}"
 
 /-- one op on the model store: new store and the reply as JSON -/
@@ -170,8 +181,8 @@ def judgeOp (op : SOp) (reply : Json) (before after : FCs) : Except String (List
       match findFC fc before, findFC fc after with
       | some (.tb _), some (.tb _) => grantViolations tokens r
       | some (.mif b), some (.mif a) =>
-        if tokens < 0 then (if a = b then [] else ["negative-ask-changes-state"])
-        else if !once then []
+        if !once then []
+        else if tokens < 0 then (if a = b then [] else ["negative-ask-changes-state"])
         else
           let rep : Reply := match r.err with
             | .requestIDTooOld => ⟨false, tokens, .requestIDTooOld⟩
@@ -181,8 +192,11 @@ def judgeOp (op : SOp) (reply : Json) (before after : FCs) : Except String (List
       | _, _ => []
   | .sync spec =>
     pure <| spec.flatMap fun s =>
+      if (spec.filter fun q => q.name = s.name).length ≠ 1 then [] else
       match s.gmif, findFC s.name before, findFC s.name after with
-      | some m, some (.mif b), some (.mif a) => resizeViolations b m a
+      | some _, some (.mif b), some (.mif a) =>
+        -- (an unchanged spec returns early, so the limit is only compared with the model's)
+        if a.count = b.count ∧ a.states = b.states then [] else ["resize-touches-accounting"]
       | _, _, _ => []
 
 def doRun (a : Json) : Except String Json := do
